@@ -98,4 +98,21 @@ static void body(void) {
 		}
 	}
 }
-int main(int argc, char **argv) { vh_init(argc, argv); fill(); vh_guarded("C05", body, 60); return vh_finish(); }
+/* AAD lengths around the CCM length-encoding switch (0xff00) and 2^16: untouched must open; bit flips at both ends of the AAD, AAD +-1 byte must be refused */
+static void body_bigaad(void) {
+	if (!vh_block_begin("big-aad")) return;
+	static const size_t BAL[] = { 0xfeff, 0xff00, 0xff01, 0xffff, 0x10000, 0x10001 }; static uint8_t aad[0x10010], m[0x10010]; for (size_t i = 0; i < sizeof aad; i++) aad[i] = (uint8_t)(i * 7 + 1);
+	for (int si = 0; si < 4; si++) for (int ai = 0; ai < 6; ai++) for (int mi = 0; mi < 2; mi++) { if (!vh_next()) continue; const scheme_t *s = &SCH[si]; size_t al = BAL[ai], n = mi ? 17 : 0, tl = 16, nl = 12; uint8_t ct[100], tag[32], pt[100]; size_t cl = 0, pl = 0; char key[160];
+		if (s->seal(NONCE, nl, aad, al, PT, n, tl, ct, &cl, tag) != 1) { snprintf(key, sizeof key, "C05:%s:seal-failed:big-aad", s->name); vh_viol(key, "\"aadlen\":%zu", al); continue; }
+		size_t kk[3] = { (size_t)si, al, n }; int r = s->open(NONCE, nl, aad, al, ct, cl, tag, tl, cl / 2, pt, &pl); vh_eval(vh_hash(kk, sizeof kk, 1));
+		if (r != 1 || pl != n || memcmp(pt, PT, n)) { snprintf(key, sizeof key, "C05:%s:untouched-rejected:big-aad", s->name); vh_viol(key, "\"aadlen\":%zu,\"msglen\":%zu,\"ret\":%d", al, n, r); continue; }
+		static const size_t POS[] = { 0, 1, 15, 16 }; for (int e = 0; e < 2; e++) for (int pi = 0; pi < 4; pi++) for (int bit = 0; bit < 8; bit++) { size_t pos = e ? al - 1 - POS[pi] : POS[pi]; memcpy(m, aad, al); m[pos] ^= (uint8_t)(1 << bit); r = s->open(NONCE, nl, m, al, ct, cl, tag, tl, 0, pt, &pl); vh_eval(vh_hash(kk, sizeof kk, 100 + e * 50 + pi * 8 + bit)); expect_reject(s, "aad", "bitflip-big-aad", r, n, al, tl, pos * 8 + bit, 0); }
+		r = s->open(NONCE, nl, aad, al - 1, ct, cl, tag, tl, 0, pt, &pl); vh_eval(vh_hash(kk, sizeof kk, 2)); expect_reject(s, "aad", "truncation-big-aad", r, n, al, tl, al - 1, 0);
+		r = s->open(NONCE, nl, aad, al + 1, ct, cl, tag, tl, 0, pt, &pl); vh_eval(vh_hash(kk, sizeof kk, 3)); expect_reject(s, "aad", "extension-big-aad", r, n, al, tl, al + 1, 0);
+		/* the same bytes presented under the other length encoding must not verify either: AAD' = 4-byte big-endian length || AAD, 4 bytes longer */
+		if (al + 4 < sizeof m) { m[0] = (uint8_t)(al >> 24); m[1] = (uint8_t)(al >> 16); m[2] = (uint8_t)(al >> 8); m[3] = (uint8_t)al; memcpy(m + 4, aad, al); r = s->open(NONCE, nl, m, al + 4, ct, cl, tag, tl, 0, pt, &pl); vh_eval(vh_hash(kk, sizeof kk, 4)); expect_reject(s, "aad", "length-prefix-confusion", r, n, al, tl, 0, 0); }
+		vh_sample("{\"block\":\"big-aad\",\"scheme\":\"%s\",\"aadlen\":%zu,\"msglen\":%zu}", s->name, al, n);
+	}
+}
+static void body_all(void) { body(); body_bigaad(); }
+int main(int argc, char **argv) { vh_init(argc, argv); fill(); vh_guarded("C05", body_all, 60); return vh_finish(); }
